@@ -620,6 +620,7 @@ static void setup(const Plan &plan) {
     CX->addr = addr_for(CX->tp, plan.seed);
     XO.check_counters = plan.P("counters") != 0;
     XO.judge_unprovoked = plan.P("variant") == 0 && !plan.P("relay");
+    if (plan.prop == "C01") G->alias["C03.failed_send_delivered"] = "C01.phantom";   // a message whose xcm_send returned -1 (e.g. EINTR) yet arrives: not in "the sequence for which xcm_send returned success"
     install_basic_tls_files("/cert");
     K->mkdir_p("/tmp");
     if (plan.P("ctl")) { K->mkdir_p("/ctl"); K->env["XCM_CTL"] = "/ctl"; }
